@@ -615,6 +615,25 @@ def c01(rep, tier):
                     late = [(r, u) for r in rels for u in uses if gg.can_follow(r, u) and u.e is not strip_casts(r.e['args'][0]) and not any(x is u.e for x in walk_expr(r.e))]
                     F.check(not late, '%s: temporary %s' % (f['q'], decl['name']), '%d use(s), none after its release' % len(uses),
                             'used after release (%s): another value may already live in this register' % (show(late[0][1].e) if late else ''), W(m, f, decl))
+    # what is handed back to the allocator is a register that came from it (not a counter, an index or a constant): releasing any
+    # other number puts a live register on the free list, and the next temporary overwrites a variable
+    for f in m.all_fns():
+        if f.get('rec') == 'FunctionGenState':
+            continue
+        for e in walk_all_exprs(f['body']):
+            if e.get('k') == 'call' and m.callee(e) == 'FunctionGenState::releaseTemporary' and e.get('args'):
+                pv = prov.of(f, e['args'][0])
+                inst = '%s: %s' % (f['q'], show(e)[-60:])
+                bad = [p for p in pv if p != 'REG' and not (isinstance(p, str) and p.startswith('UNKNOWN'))]
+                unk = [p for p in pv if isinstance(p, str) and p.startswith('UNKNOWN')]
+                if bad:
+                    F.violation(inst, 'the released value is %s, not a register obtained from the allocator: an unrelated register becomes free while it is live'
+                                % ('a loop index' if any(isinstance(b, tuple) and b[0] == 'ARGIDX' for b in bad) else str(sorted(map(str, bad)))[:80]), W(m, f, e),
+                                witness={'input': 'r := RUN f WITH a, b END inside an expression that keeps temporaries live'})
+                elif unk or not pv:
+                    F.unknown(inst, 'origin of the released register not resolved: %s' % (unk[:1] or 'none'), W(m, f, e))
+                else:
+                    F.ok(inst, 'releases a register obtained from fetchTemporary', W(m, f, e))
     # vector of temporaries in the call sequence
     g = m.cfg(dvf)
     rels = [ev for ev in g.calls_to('FunctionGenState::releaseTemporary') if is_call(strip_casts(ev.e['args'][0]), '::operator[]')]
